@@ -1,7 +1,8 @@
 #!/bin/bash
-# Build the whole Coq development (full .vo build, no -vos). Usage: coqbuild.sh [make-args]
+# Build the Coq development (full .vo build, no -vos). Usage: coqbuild.sh [make targets]
+# VERIF_COQ_DIR (default /verif/coq) selects the tree.
 set -e
-cd "$(dirname "$0")/../coq"
+cd "${VERIF_COQ_DIR:-$(dirname "$0")/../coq}"
 {
   echo "-Q . GSP"
   echo "-arg -w -arg -notation-overridden,-deprecated-hint-without-locality,-deprecated-instance-without-locality"
